@@ -541,6 +541,16 @@ class C06(SolverSuite):
         ops = G.sprinkle_clone(rng, ops, "S0", spec=spec)
         ops = G.sprinkle_misc(rng, ops, "S0")
         ops = _maybe_company(rng, actors, ops)
+        if rng.random() < 0.08 and not spec["params"].get("refineSolution") and not spec.get("listeners") \
+                and spec.get("lower") is not None and not spec.get("problem_obj") and not any(o["op"] == "refine" for o in ops):
+            # the caller re-uses its bound ARRAYS (narrows them in place for the next, zoomed-in solver) while this solver
+            # is still searching the box it was constructed with
+            lo, up = spec["lower"], spec["upper"]
+            nlo = [float("%.4g" % (l + rng.uniform(0.1, 0.4) * (u_ - l))) for l, u_ in zip(lo, up)]
+            nup = [float("%.4g" % (u_ - rng.uniform(0.1, 0.4) * (u_ - l))) for l, u_ in zip(lo, up)]
+            pos = [j_ for j_, o in enumerate(ops) if o["a"] == "S0" and o["op"] == "create"][0]
+            i = rng.randint(pos + 1, len(ops))
+            ops = ops[:i] + [{"a": "S0", "op": "narrow_box", "lower": nlo, "upper": nup}] + ops[i:]
         plan = G.base_plan(self.prop, run_seed, actors, ops, clock=G.gen_clock(rng))
         if "S1" in actors and rng.random() < 0.5:
             plan["nested"] = gen_nested(rng, plan, max_entries=2)
